@@ -6,7 +6,11 @@
 //   I n d              NormalizeComponentsUnitInterval                    diag, off, model output on the training data
 //   L lam n d o        LinearRegression(lam)        | .. | X | Y (n*o)     matrix (o x d, row major), offset (o)
 //   W tv n d / Z tv n d   NormalizeComponentsWhitening / ZCA (target variance tv)   rows, matrix, offset
-//   P wh m n d         PCA(whitening = wh), m components (0 = all)         eigenvalues, eigenvectors, mean, encoder, decoder
+//   P wh m n d         PCA(whitening = wh), m components (0 = all)         eigenvalues, eigenvectors, mean, encoder, decoder;
+//                      on/oD/oU: the answer of the eigen-decomposition ORACLE on the matrix of the branch taken (standard branch:
+//                      the public eigenvalues()/eigenvectors(); small-sample branch d > n: the decomposition is a local variable
+//                      of PCA::setData, so the Gram-type matrix X0 X0^T / n is formed here with the same statements and handed
+//                      to the same blas::symm_eigenvalue_decomposition - deterministic, hence the values setData met)
 //   D lam n d K        LDA(lam)                    | .. | X | labels       matrix (K x d), bias (K)
 //   DW lam n d K       LDA(lam), weighted          | .. | X | labels | weights
 //   F wh m n d K       FisherLDA(wh, m)            | .. | X | labels       rows, matrix, offset
@@ -116,6 +120,34 @@ static void run(Case const& c, std::ostream& o) {
 			pv(o, "ev", vec(pca.eigenvalues())); pv(o, "evec", mat(pca.eigenvectors())); pv(o, "mean", vec(pca.mean()));
 			pv(o, "encA", mat(enc.matrix())); pv(o, "encb", vec(enc.offset())); pv(o, "decA", mat(dec.matrix())); pv(o, "decb", vec(dec.offset()));
 			pv(o, "trA", mat(tr.matrix())); pv(o, "trb", vec(tr.offset()));
+			if (d > n) {
+				UnlabeledData<RealVector> const& inputs = data; std::size_t m_l = n;
+				RealVector m_mean = shark::mean(inputs);
+				RealMatrix S(m_l, m_l, 0.0);
+				std::size_t start1 = 0;
+				for (std::size_t b1 = 0; b1 != inputs.numberOfBatches(); ++b1) {
+					std::size_t batchSize1 = inputs.batch(b1).size1();
+					RealMatrix X1 = inputs.batch(b1) - repeat(m_mean, batchSize1);
+					std::size_t start2 = 0;
+					for (std::size_t b2 = 0; b2 != b1; ++b2) {
+						std::size_t batchSize2 = inputs.batch(b2).size1();
+						RealMatrix X2 = inputs.batch(b2) - repeat(m_mean, batchSize2);
+						auto X1X2T = subrange(S, start1, start1 + batchSize1, start2, start2 + batchSize2);
+						auto X2X1T = subrange(S, start2, start2 + batchSize2, start1, start1 + batchSize1);
+						noalias(X1X2T) = prod(X1, trans(X2));
+						noalias(X2X1T) = trans(X1X2T);
+						start2 += batchSize2;
+					}
+					auto X1X1T = subrange(S, start1, start1 + batchSize1, start1, start1 + batchSize1);
+					noalias(X1X1T) = prod(X1, trans(X1));
+					start1 += batchSize1;
+				}
+				S /= m_l;
+				blas::symm_eigenvalue_decomposition<RealMatrix> eigen(S);
+				o << " on=" << n; pv(o, "oD", vec(eigen.D())); pv(o, "oU", mat(eigen.Q()));
+			} else {
+				o << " on=" << d; pv(o, "oD", vec(pca.eigenvalues())); pv(o, "oU", mat(pca.eigenvectors()));
+			}
 		}
 		return;
 	}
